@@ -28,11 +28,12 @@ def _setup_inv(eng, st):
     x, y = z3.Ints('x!il y!il')
     r = z3.Select(z3.Select(_invl(G), x), y)
     m = z3.Select(z3.Select(G, x), y)
-    st.pc.append(z3.ForAll([x, y], r == z3.If(m != 0, 1 / m, z3.RealVal(0)), patterns=[r]))
+    # (the second conjunct is the arithmetic fact 1/m > 0 for m > 0, 1/m < 0 for m < 0, which the solver does not derive under quantifiers)
+    st.pc.append(z3.ForAll([x, y], z3.And(r == z3.If(m != 0, 1 / m, z3.RealVal(0)), z3.Implies(m > 0, r > 0), z3.Implies(m < 0, r < 0)), patterns=[r, m]))
     st.ghost['L'] = alloc(st, 2, _invl(G), (st.ghost['n0'], st.ghost['n0']), REAL)
 
 
-def _floyd_contract(L, key, setup, extra_requires, first_stmt):
+def _floyd_contract(L, key, setup, extra_requires, infdiv):
     """L: name of the matrix of connection lengths the specification speaks about (the argument itself, or the ghost L)."""
     RCH = lambda a, b: "Or(%s == %s, sdist(%s, %s, %s) >= 1)" % (a, b, L, a, b)
     inv = [
@@ -42,7 +43,7 @@ def _floyd_contract(L, key, setup, extra_requires, first_stmt):
         ('LOWER-no-walk-through-the-pivots-so-far-is-shorter', "forall(lambda v, w, m, real_l: implies(And(inr(v, n0), inr(w, n0), swalk(%s, _it, v, w, m, real_l)), SPL[v, w] <= real_l))" % L),
     ]
     c = Contract(
-        MOD, 'distance_wei_floyd', ['adjacency', 'transform'], setup=setup, key=key, inf_division=True,
+        MOD, 'distance_wei_floyd', ['adjacency', 'transform'], setup=setup, key=key, inf_division=infdiv,
         requires=extra_requires + [('lengths-nonnegative', _N2 % ("%s[v, w] >= 0" % L)),
                                    ('infinity-exceeds-every-distance', "And(INF > 0, " + (_N2 % ("%s[v, w] < INF" % L)) + ", " + (_N2 % ("implies(" + RCH('v', 'w') + ", wd(%s, v, w) < INF)" % L)) + ")")],
         loops={'for k in range(*': {'name': 'pivots', 'inv': inv}},
@@ -58,6 +59,16 @@ def _floyd_contract(L, key, setup, extra_requires, first_stmt):
 _N2 = "forall(lambda v, w: implies(And(inr(v, n0), inr(w, n0)), %s))"
 _AB = {k: {} for k in ['hops = np.array(*', 'Pmat = np.repeat(*', 'path = np.logical_and(*', 'i, j = np.where(path)']}
 _AB.update({'hops[path] = *': {'allow_store': {'hops': True}}, 'Pmat[path] = *': {'allow_store': {'Pmat': True}}, 'hops[I], Pmat[I] = *': {'allow_store': {'hops': True, 'Pmat': True}}})
-CONTRACTS['distance_wei_floyd'] = _floyd_contract('adjacency', 'distance_wei_floyd', _setup, [], None)
+CONTRACTS['distance_wei_floyd'] = _floyd_contract('adjacency', 'distance_wei_floyd', _setup, [], False)
 # transform='inv': SPL starts as 1/w (IEEE: 1/0 = inf under np.errstate(divide='ignore')); weights must be non-negative
-CONTRACTS['distance_wei_floyd:inv'] = _floyd_contract('L', 'distance_wei_floyd:inv', _setup_inv, [('weights-nonnegative', _N2 % "adjacency[v, w] >= 0")], None)
+CONTRACTS['distance_wei_floyd:inv'] = _floyd_contract('L', 'distance_wei_floyd:inv', _setup_inv, [('weights-nonnegative-and-finite', _N2 % "And(adjacency[v, w] >= 0, adjacency[v, w] < INF)")], 'ieee')
+
+
+def _inv_ghosts(args, result, locs):
+    import numpy as np
+    A = np.asarray(args['adjacency'], dtype=float)
+    with np.errstate(divide='ignore'):
+        return {'L': np.where(A != 0, 1 / np.where(A != 0, A, 1), 0.)}
+
+
+CONTRACTS['distance_wei_floyd:inv'].concrete_ghosts = _inv_ghosts
